@@ -90,18 +90,15 @@ def run(ctx):
     ctx.rule("C20-R2", "setter delegation (both builders)")
     for side in ("ServerConfigBuilder", "ClientConfigBuilder"):
         f = A.fn(C + side + "::max_idle_timeout")
-        T = r"Option::transpose\(Option::map\(idle_timeout,fn:TryFrom::try_from\)\)"
+        T = r"<IdleTimeout as TryFrom<Duration>>::try_from\(ok\(idle_timeout\)\)"
         rows = [
-            {"name": "representable->applied", "atoms": [r"^%s ok$" % T], "events": [r"^TransportConfig::max_idle_timeout\(self\.0\.transport_config,ok\(%s\)\)$" % T], "leaf": r"^return Result::Ok\(self\)$"},
-            {"name": "not representable->refused, config untouched", "atoms": [r"^%s fails$" % T], "not_events": [r"TransportConfig::"], "leaf": r"^return Result::Err\(InvalidIdleTimeout\)$"},
+            {"name": "None->idle timeout disabled", "atoms": [r"^idle_timeout fails$"], "events": [r"^TransportConfig::max_idle_timeout\(self\.0\.transport_config,Option::None\)$"], "leaf": r"^return Result::Ok\(self\)$"},
+            {"name": "representable->applied", "atoms": [r"^idle_timeout ok$", r"^%s ok$" % T], "events": [r"^TransportConfig::max_idle_timeout\(self\.0\.transport_config,Option::Some\(ok\(%s\)\)\)$" % T], "leaf": r"^return Result::Ok\(self\)$"},
+            {"name": "not representable->refused, config untouched", "atoms": [r"^idle_timeout ok$", r"^%s fails$" % T], "not_events": [r"TransportConfig::"], "leaf": r"^return Result::Err\(InvalidIdleTimeout\)$"},
         ]
         ps = walk(f)
         match_table(ctx, "C20-R2", f, ps, rows, "%s::max_idle_timeout" % side)
-        tq = {tuple(e[5].get("targs", [])) for p in ps for e in p.events if e[0] == "call" and e[1].endswith("Option::map")}
-        ctx.check("C20-R2", "%s idle timeout conversion is IdleTimeout::try_from" % side, any("IdleTimeout" in " ".join(t) for t in tq), "idle timeout is not converted with quinn::IdleTimeout::try_from: %s" % tq, where(f))
-        cl = A.fn(C + side + "::max_idle_timeout::{closure#0}")
-        ls = [path_sig(p)[1] for p in nonpanic(walk(cl))]
-        ctx.check("C20-R2", "%s invalid -> InvalidIdleTimeout" % side, ls == ["return InvalidIdleTimeout"], "conversion failure is not reported as InvalidIdleTimeout: %s" % ls, where(cl))
+        # (the conversion function and the error value are part of the rows above: `<IdleTimeout as TryFrom<Duration>>::try_from`, `InvalidIdleTimeout`)
         f = A.fn(C + side + "::keep_alive_interval")
         ev = [e for p in nonpanic(walk(f)) for e in event_strs(p)]
         ctx.check("C20-R2", "%s::keep_alive_interval" % side, ev == ["TransportConfig::keep_alive_interval(self.0.transport_config,interval)"], "%s::keep_alive_interval does not reach TransportConfig::keep_alive_interval(interval): %s" % (side, ev), where(f))
